@@ -4,7 +4,6 @@ import (
 	"fmt"
 	"runtime"
 	"strings"
-	"sync"
 
 	"verifsim/simnet"
 
@@ -145,7 +144,7 @@ func c19Scenario(r *R) {
 		gun["type"] = "http2/scenario"
 	}
 	var tgt *httpTarget
-	var cutMu sync.Mutex // nosim
+	var cutMu simrt.HMutex
 	cuts := map[string]int{}
 	res := runHTTPPool(r, httpPoolSpec{
 		Ammo:      map[string]interface{}{"type": "http/scenario", "file": "/ammo/scenario.yaml", "limit": invocations},
